@@ -142,6 +142,8 @@ type itemObs struct {
 	Stored []byte // batches: BytesToSign as stored on the batch
 	Sigs   []sigObs
 	Queue  string
+	Chain  string // chain reference id the item belongs to
+	Token  string // batches: token contract
 	ID     uint64
 	Est    uint64
 	Ests   []uint64 // estimates submitted so far
@@ -288,10 +290,11 @@ func run(r *report.Run, shard, nshards int, replayFile string) {
 		panic(fmt.Sprintf("scenario set-up incomplete: %v", kinds))
 	}
 
-	r.Rule = "scenario two-chains: a second active chain with its own published UpdateValset (v0 registered there with another key, v1 with the same key, v2 not at all); Sign with one entry or with two entries in one MsgAddMessagesSignatures (first chain's SubmitLogicCall + second chain's UpdateValset, both orders, every assignment of the validator's two keys) and the end-block; the ghost records the key registered for the item's own chain and a rejected transaction must leave no signature. Then four BFS scenarios (operations on the SubmitLogicCall only / the UpdateValset only / the batch only / all three), each from the set-up state and from seeded states where two of three validators have already estimated the scenario's items (21000; 300000); alphabet Sign(v,m,kind) / Estimate(v,m,g) / EndCons (module-manager end-block: estimate election, fee attachment by in-place replacement) / Confirm(v,b,kind) / EstBatch(v,b,g) / EndSky (skyway end-blocker: election, checkpoint recomputed) / ReplaceCompass (once; new deployment id while the batch is open; the previous-bytes kind is then a confirmation over the checkpoint bound to the previous deployment) / ReRegister(v,key: own first, own second, first key of the previous validator, the previous validator's current or former key spelled differently (lower-case address, zero-padded 32-byte Pubkey)) with kind in {valid, garbage, other validator's key under own address, other validator's key and address, duplicate, signature over the item's previous bytes, own previous key}; every transition is a really signed tx through ante + router or a real end-blocker; in every state each stored signature / batch confirm is recovered with go-ethereum SigToPub over the item's current signing bytes; a state is distinct by (consensus, skyway, valset stores, ghost)"
+	r.Rule = "scenario two-chains: a second active chain with its own published UpdateValset (v0 registered there with another key, v1 with the same key, v2 not at all); Sign with one entry or with two entries in one MsgAddMessagesSignatures (first chain's SubmitLogicCall + second chain's UpdateValset, both orders, every assignment of the validator's two keys), Confirm of the open batch of either chain (the second chain has its own batch) with the key registered for the first or for the second chain, and the end-block; the ghost records the key registered for the item's own chain and a rejected transaction must leave no signature. Then four BFS scenarios (operations on the SubmitLogicCall only / the UpdateValset only / the batch only / all three), each from the set-up state and from seeded states where two of three validators have already estimated the scenario's items (21000; 300000); alphabet Sign(v,m,kind) / Estimate(v,m,g) / EndCons (module-manager end-block: estimate election, fee attachment by in-place replacement) / Confirm(v,b,kind) / EstBatch(v,b,g) / EndSky (skyway end-blocker: election, checkpoint recomputed) / ReplaceCompass (once; new deployment id while the batch is open; the previous-bytes kind is then a confirmation over the checkpoint bound to the previous deployment) / ReRegister(v,key: own first, own second, first key of the previous validator, the previous validator's current or former key spelled differently (lower-case address, zero-padded 32-byte Pubkey)) with kind in {valid, garbage, other validator's key under own address, other validator's key and address, duplicate, signature over the item's previous bytes, own previous key}; every transition is a really signed tx through ante + router or a real end-blocker; in every state each stored signature / batch confirm is recovered with go-ethereum SigToPub over the item's current signing bytes; a state is distinct by (consensus, skyway, valset stores, ghost)"
 	r.Assumptions = []string{
 		"tx atomicity re-implemented as in baseapp.runTx (ante cache, msg cache)",
 		"height and time are fixed at 101 (only h mod 10/50/300 and batch time-outs are read by the explored code; none of them fires)",
+		"two-chains: v2 has no account on the second (active) chain; it would drop out of the snapshot at the next build, which does not happen at the fixed height",
 		"snapshot rebuilds and message re-assignment (ReassignOrphanedMessages has no caller in the application) are outside the alphabet",
 		"compass replacement (one ReplaceCompass = EvmKeeper.ActivateChainReferenceID with a new deployment id, in the batch and all-items scenarios): the tree neither re-issues the stored BytesToSign nor discards stored confirmations at that moment (it does at the next estimate election; never if the estimate was already elected). The oracle therefore requires only confirmations ACCEPTED AFTER the replacement to verify over the checkpoint recomputed from the stored batch and the chain's CURRENT deployment id; confirmations accepted before it are judged over the checkpoint they were made for, and the stale stored BytesToSign is counted (outcome ReplaceCompass: +stale-bytes-to-sign / +kept-confirm), not judged",
 		"registered Pubkey is the 20-byte address of the registered key (what StdChain and pigeon register) or, in the alias registration, the same address zero-padded to 32 bytes; the stored PublicKey of a signature is read the way the queue reads it (last 20 bytes)",
@@ -450,7 +453,22 @@ func (e *env) twoChains(ctx sdk.Context, g0 *ghost) (*explore.Node, string) {
 		}
 		must(w.App.EvmKeeper.PublishSnapshotToAllChains(c, snap, true))
 	}
+	// an open bridge batch on the second chain (v2 has no account there)
+	u := w.User("U1")
+	denom2, err := w.BridgeToken(c, w.User("adm"), "t2", ref2, "0x2222222222222222222222222222222222222222", 1000, u)
+	must(err)
+	must(w.DeliverTx(c, []*world.Actor{u}, &skywaytypes.MsgSendToRemote{EthDest: "0x00000000000000000000000000000000000000bb", Amount: sdk.NewInt64Coin(denom2, 10), ChainReferenceId: ref2, Metadata: world.Meta(u)}).Err)
+	w.SkywayEnd(world.At(c, 150, c.BlockTime().Add(time.Second)), nil)
 	g.obs = e.observe(c)
+	nb2 := 0
+	for _, it := range g.obs {
+		if it.Kind == "batch" && it.Chain == ref2 {
+			nb2++
+		}
+	}
+	if nb2 != 1 {
+		panic(fmt.Sprintf("two-chains set-up: %d batches on %s: %v", nb2, ref2, sortedKeys(g.obs)))
+	}
 	keyB := ""
 	for k, it := range g.obs {
 		if it.Queue == e.tq2 && it.What == "UpdateValset" {
@@ -500,6 +518,35 @@ func (e *env) ops2(n *explore.Node, keyA, keyB string) []explore.Op {
 			for _, kb := range keys {
 				send(fmt.Sprintf("Sign(%s,[A:%s,B:%s])", v.Name, ka.tag, kb.tag), keyA+"|"+keyB, "Sign2/A:"+ka.tag+",B:"+kb.tag, entry(a, ka), entry(b, kb))
 				send(fmt.Sprintf("Sign(%s,[B:%s,A:%s])", v.Name, kb.tag, ka.tag), keyA+"|"+keyB, "Sign2/B:"+kb.tag+",A:"+ka.tag, entry(b, kb), entry(a, ka))
+			}
+		}
+	}
+	// batch confirmations: the batch of either chain, signed with the key the
+	// validator has registered for the first (k1) or the second chain (k2); v2 has
+	// no account on the second chain, so for that batch k1 is "a key registered for
+	// another chain" and no legitimate key exists
+	for _, key := range sortedKeys(g.obs) {
+		it := g.obs[key]
+		if it.Kind != "batch" {
+			continue
+		}
+		key := key
+		tag := "bA"
+		if it.Chain == ref2 {
+			tag = "bB"
+		}
+		for vi, v := range e.w.Vals {
+			vi, v := vi, v
+			keys := []struct{ tag, addr string }{{"k1", g.Reg[vi]}}
+			if g.Reg2[vi] != "" && g.Reg2[vi] != g.Reg[vi] {
+				keys = append(keys, struct{ tag, addr string }{"k2", g.Reg2[vi]})
+			}
+			for _, k := range keys {
+				k := k
+				msg := &skywaytypes.MsgConfirmBatch{Nonce: it.ID, TokenContract: it.Token, EthSigner: k.addr, Orchestrator: v.Addr.String(),
+					Signature: hex.EncodeToString(e.sign(k.addr, it.Bytes)), Metadata: world.Meta(v.Actor)}
+				ops = append(ops, e.step(fmt.Sprintf("Confirm(%s,%s:%s)", v.Name, tag, k.tag), opCtx{vi, key, "Confirm2/" + tag + ":" + k.tag},
+					func(ctx sdk.Context, g *ghost) (string, *explore.Fail) { return e.deliver(ctx, v, msg) }))
 			}
 		}
 	}
@@ -594,7 +641,10 @@ func (e *env) observe(ctx sdk.Context) observation {
 			continue
 		}
 		for _, m := range msgs {
-			it := &itemObs{Kind: "msg", Queue: q, ID: m.GetId(), Est: m.GetGasEstimate()}
+			it := &itemObs{Kind: "msg", Queue: q, ID: m.GetId(), Est: m.GetGasEstimate(), Chain: ref}
+			if q == e.tq2 {
+				it.Chain = ref2
+			}
 			// GetBytesToSign is a pure function of the stored record: memoise on its full encoding
 			raw, err := cdc.MarshalInterface(m)
 			if err != nil {
@@ -637,12 +687,12 @@ func (e *env) observe(ctx sdk.Context) observation {
 	if err != nil {
 		panic(err)
 	}
-	ci, err := w.App.EvmKeeper.GetChainInfo(ctx, ref)
-	if err != nil {
-		panic(err)
-	}
 	for _, b := range batches {
-		it := &itemObs{Kind: "batch", What: "batch", ID: b.BatchNonce, Stored: b.BytesToSign, Est: b.GasEstimate}
+		ci, err := w.App.EvmKeeper.GetChainInfo(ctx, b.ChainReferenceID)
+		if err != nil {
+			panic(err)
+		}
+		it := &itemObs{Kind: "batch", What: "batch", ID: b.BatchNonce, Stored: b.BytesToSign, Est: b.GasEstimate, Chain: b.ChainReferenceID, Token: b.TokenContract.GetAddress().Hex()}
 		ext := b.ToExternal()
 		raw, err := cdc.Marshal(&ext)
 		if err != nil {
@@ -874,7 +924,7 @@ func (e *env) step(label string, oc opCtx, f func(ctx sdk.Context, g *ghost) (st
 				}
 				// the key this validator has registered for the item's chain
 				g.Sig[key][s.Val] = reg1
-				if a.Queue == e.tq2 {
+				if a.Chain == ref2 {
 					g.Sig[key][s.Val] = reg2
 				}
 				outcome += "+stored"
